@@ -40,6 +40,8 @@ def run(ck: Check) -> int:
     from bounded import crypto_common as CC
     from pytezos.crypto import key as keymod
     from pytezos.michelson.instructions.crypto import HashKeyInstruction
+    from props import C07_P
+    C07_P.run_pkh(ck)              # lead's deductive part: public_key_hash over uninterpreted blake2b / base58
 
     Key = keymod.Key
     for f in (Key.from_secret_exponent, Key.from_encoded_key, Key.secret_key, Key.public_key_hash, Key.public_key,
